@@ -31,6 +31,7 @@ type Engine struct {
 	specs      *SpecDB
 	fnByKey    map[string][]*ssa.Function
 	allFns     []*ssa.Function
+	useTypeInv bool // object invariants (typeinv) are assumed: set in the runs that verify the constructors
 	closures   map[string]*closureInfo
 	globalIDs  map[string]int
 	mapLits    map[string][]mapEntry
